@@ -173,7 +173,7 @@ Print Assumptions only_bad_filename_excluded.
 
 (* whatever Scanner.required raises, on any text, is one of the constructed errors (its state
    satisfies scan_state_ok) *)
-Theorem scanner_required_constructed : forall text lit (f : option str) id e,
+Theorem scanner_required_constructed : forall text lit (f : pfname) id e,
   scanner_required text lit (fname_of f) id = inr e -> constructed e.
 Proof. exact Proofs.Errors.scanner_required_constructed. Qed.
 Print Assumptions scanner_required_constructed.
@@ -223,12 +223,21 @@ Example scanner_example :
 Proof. eexists. split; [vm_compute; reflexivity|]. split; vm_compute; reflexivity. Qed.
 
 Example constructed_examples :
-  constructed (new_token_required 1 (s2l "'='") (mkScanner (s2l "@a{k," ++ [10%N] ++ s2l " t {x}}") (Some (s2l "f.bib")) 2 9))
-  /\ constructed (new_token_required_bib 2 (s2l "'='") (mkScanner (s2l "@a{k, t {x}}") None 1 8) (Some 0%Z))
-  /\ constructed (new_aux_error 3 (s2l "found no \bibdata command") (mkAuxctx (Some (s2l "x.aux")) None None)).
+  constructed (new_token_required 1 (s2l "'='") (mkScanner (s2l "@a{k," ++ [10%N] ++ s2l " t {x}}") (PBytes [99; 97; 102; 233; 46; 98; 105; 98]%N) 2 9))
+  /\ constructed (new_token_required_bib 2 (s2l "'='") (mkScanner (s2l "@a{k, t {x}}") PNone 1 8) (Some 0%Z))
+  /\ constructed (new_aux_error 3 (s2l "found no \bibdata command") (mkAuxctx (PStr (s2l "x.aux")) None None)).
 Proof.
   split; [|split].
   - apply C_token. exists (s2l "@a{k," ++ [10%N] ++ s2l " t "), 123%N, (s2l "x}}"). vm_compute. repeat split; discriminate.
   - apply C_token_bib. exists 0%Z. vm_compute. repeat split; discriminate.
   - apply C_aux.
 Qed.
+
+(* a bytes path that is not valid UTF-8 (b'caf\xe9.bib'): the undecodable byte becomes U+FFFD and
+   the error renders *)
+Example bytes_filename_example :
+  format_error (new_syntax_error 1 (s2l "syntax error") (s2l "m") (mkScanner [] (PBytes [99; 97; 102; 233; 46; 98; 105; 98]%N) 1 0)) (s2l "ERROR: ")
+  = Ok (s2l "caf" ++ [65533%N] ++ s2l ".bib: ERROR: syntax error in line 1: m")
+  /\ utf8_replace [226; 130; 172; 226; 130; 65; 240; 159; 152; 128; 237; 160; 128; 192; 175]%N
+     = [8364; 65533; 65; 128512; 65533; 65533; 65533; 65533; 65533]%N.
+Proof. split; vm_compute; reflexivity. Qed.
